@@ -160,7 +160,7 @@ func runC10(c *fw.Ctx) {
 	for i := 0; i < n; i++ {
 		k := g.Key(m.Keys())
 		v, w := g.Value()
-		if err := t.Update(k, v, w); err != nil {
+		if err := wl.Upd(t, k, v, w); err != nil {
 			c.Violate("", "Update failed: %v", err)
 			return
 		}
@@ -176,8 +176,8 @@ func runC10(c *fw.Ctx) {
 		ks := m.Keys()
 		for i := 0; i < 1+r.Intn(2); i++ {
 			k := ks[r.Intn(len(ks))]
-			if err := t.Update([]byte(k), nil, 0); err == nil {
-				_ = t.Update([]byte(k), m[k].Val, m[k].W)
+			if err := wl.Upd(t, []byte(k), nil, 0); err == nil {
+				_ = wl.Upd(t, []byte(k), m[k].Val, m[k].W)
 			}
 		}
 		if b1, err := t.Commit(r.Intn(6)); err == nil {
@@ -190,7 +190,7 @@ func runC10(c *fw.Ctx) {
 	for _, k := range m.Keys() {
 		if r.Intn(3) == 0 {
 			v := g.SameWeightValue(m[k].W)
-			if err := t.Update([]byte(k), v, m[k].W); err != nil {
+			if err := wl.Upd(t, []byte(k), v, m[k].W); err != nil {
 				c.Violate("", "Update failed: %v", err)
 				return
 			}
@@ -225,7 +225,7 @@ func runC10(c *fw.Ctx) {
 			if r.Intn(2) == 0 {
 				v, w = g.SameWeightValue(m[k].W), m[k].W
 			}
-			if err := t.Update([]byte(k), v, w); err == nil {
+			if err := wl.Upd(t, []byte(k), v, w); err == nil {
 				m[k] = wl.Entry{Val: v, W: w}
 			}
 		}
@@ -260,7 +260,7 @@ func runC10(c *fw.Ctx) {
 	for i := 0; i < 4; i++ {
 		kk := g.Key(nil)
 		v, w := g.Value()
-		_ = other.Update(kk, v, w)
+		_ = wl.Upd(other, kk, v, w)
 	}
 	other.Root()
 	var otherProofs [][]byte
